@@ -393,6 +393,9 @@ def run(prog, rep, tier):
     pattern_entries(prog, rep, [(U + "imec", "A"), (U + "dag_to_icpdag", "G")])
     dag_gate(rep, prog, U + "imec", "A", rule="GATE")
     imec_rules(rep, prog)
+    # the essential graph is returned under `is_consistent_extension(G, P)`, which compares sets of v-structure triples
+    from .C16 import vstructure_rules
+    vstructure_rules(rep, prog)
     chain_rules(rep, prog)
     icpdag_rules(rep, prog)
     meek_rules(rep, prog)
